@@ -826,7 +826,7 @@ const InstInfo _inst_info_table[] = {
   INST(Uxtl2_v          , SimdSxtlUxtl       , (0b0110111100000000101001, kVO_V_B16H8S4)                                             , kRWI_W    , F(Long)                   , 3  ), // #768
   INST(Uzp1_v           , ISimdVVV           , (0b0000111000000000000110, kVO_V_BHS_D2)                                              , kRWI_W    , 0                         , 61 ), // #769
   INST(Uzp2_v           , ISimdVVV           , (0b0000111000000000010110, kVO_V_BHS_D2)                                              , kRWI_W    , 0                         , 62 ), // #770
-  INST(Xar_v            , ISimdVVVI          , (0b1100111001100000100011, kVO_V_D2, 6, 10, 0)                                        , kRWI_W    , 0                         , 1  ), // #771
+  INST(Xar_v            , ISimdVVVI          , (0b1100111010000000000000, kVO_V_D2, 6, 10, 0)                                        , kRWI_W    , 0                         , 1  ), // #771
   INST(Xtn_v            , ISimdVV            , (0b0000111000100001001010, kVO_V_B8H4S2)                                              , kRWI_W    , F(Narrow)                 , 27 ), // #772
   INST(Xtn2_v           , ISimdVV            , (0b0100111000100001001010, kVO_V_B16H8S4)                                             , kRWI_X    , F(Narrow)                 , 28 ), // #773
   INST(Zip1_v           , ISimdVVV           , (0b0000111000000000001110, kVO_V_BHS_D2)                                              , kRWI_W    , 0                         , 63 ), // #774
@@ -1577,7 +1577,7 @@ const ISimdVVV iSimdVVV[65] = {
 
 const ISimdVVVI iSimdVVVI[2] = {
   { 0b0010111000000000000000, kVO_V_B, 4, 11, 1 }, // ext_v
-  { 0b1100111001100000100011, kVO_V_D2, 6, 10, 0 }  // xar_v
+  { 0b1100111010000000000000, kVO_V_D2, 6, 10, 0 }  // xar_v
 };
 
 const ISimdVVVV iSimdVVVV[2] = {
